@@ -11,7 +11,8 @@ const GLONAXD: &str = "/verif/.build/cargo-repo/debug/glonaxd";
 /// (interface index, drivers as (vendor, product, da)) per configuration kind
 fn networks(cfg: i64) -> Vec<Vec<(&'static str, &'static str, u8)>> {
     match cfg {
-        0 => vec![vec![("laixer", "hcu", 0x4a)]],
+        // cfg 8: the receive socket reports one receive error (after a frame has been received) before the request arrives
+        0 | 8 => vec![vec![("laixer", "hcu", 0x4a)]],
         1 => vec![vec![("kübler", "encoder", 0x6a), ("kübler", "encoder", 0x6b), ("kübler", "encoder", 0x6c), ("kübler", "encoder", 0x6d), ("kübler", "inclinometer", 0x7a)],
                   vec![("volvo", "d7e", 0x00), ("laixer", "vcu", 0x12), ("laixer", "hcu", 0x4a)]],
         // cfg 7: the same network, but the interface is dead (every write fails) from just before the termination request on
@@ -82,6 +83,16 @@ pub fn exec(c: &[i64]) -> Vec<i64> {
     // inside the stop budget; the teardown frames must still arrive
     let stalled = cfg == 6;
     if stalled { for b in &buses { b.congest(); } std::thread::sleep(Duration::from_millis(30)); }
+    // cfg 8: a frame from the unit, then ONE receive error on the receive socket, then the request: the receive task
+    // logs the error and lives on, teardown happens as always
+    if cfg == 8 {
+        let id = crate::units::id_of(6, 65288, 0, 0x4a) | 0x8000_0000;
+        buses[0].inject(&raw_frame(id, 8, &[0x14, 0xff, 0, 0xff, 0, 0, 0, 0]));
+        std::thread::sleep(Duration::from_millis(20));
+        let _ = buses[0].rx_error_on_first_endpoint();
+        std::thread::sleep(Duration::from_millis(30));
+        buses[0].pump();
+    }
     // cfg 7: the interface goes away for good (what BindsTo=...can0.device stops the unit for): nothing can be
     // delivered any more, the daemon still has to stop cleanly inside the budget
     if cfg == 7 { for b in &buses { b.fail_sends(); } std::thread::sleep(Duration::from_millis(20)); }
@@ -120,10 +131,10 @@ pub fn exec(c: &[i64]) -> Vec<i64> {
 pub fn gen(o: &Opts, sink: &mut dyn FnMut(Vec<i64>, String)) {
     let mut k: u64 = 0;
     let mut rng = Rng::new(o.seed, 16);
-    let n = if o.tier_thorough { 240 } else { 24 };
+    let n = if o.tier_thorough { 270 } else { 27 };
     for j in 0..n {
         k += 1; if !mine(o, k) { continue; }
-        let cfg = (j % 8) as i64;
+        let cfg = (j % 9) as i64;
         let delay = *rng.pick(&[0i64, 5, 50, 500, 12, 27]);
         let delay = if !o.tier_thorough && delay == 500 && j % 8 != 0 { 50 } else { delay };
         let delay = if cfg == 4 { 300 } else { delay };     // silent units: longer than their timeout
